@@ -18,7 +18,8 @@ EXPLANATION = (
     "that spawns ends in an awaited tornado_sleep of a delay derived from the "
     "watcher's warmup_delay, only reduced by elapsed time and clamped at 0, and "
     "_start awaits spawn_processes before the watcher becomes active. Decides "
-    "these necessary conditions, not the spacing in seconds.")
+    "these necessary conditions, not the spacing in seconds."
+    "R4 the paced start sequences hold the exclusive slot for their whole duration. ")
 ASSUMPTIONS = ["arbiter-wide reload pacing (a discarded tornado_sleep in Arbiter.reload) is "
                "outside this property and only noted"]
 
